@@ -13,6 +13,7 @@ import (
 	"strings"
 	"sync"
 	"sync/atomic"
+	"syscall"
 	"time"
 
 	"github.com/rqlite/rqlite/v10/cluster"
@@ -32,12 +33,23 @@ type bcase struct {
 	Tables   string `json:"tables,omitempty"`
 	Route    string `json:"route"` // leader | forward | noleader
 	// stream cut (Route == forward only)
-	CutMode string `json:"cut_mode,omitempty"` // reset (faultnet CutNextAfter) | eof (peer closes)
+	CutMode string `json:"cut_mode,omitempty"` // reset (faultnet CutNextAfter) | eof (peer closes) | rst (connection reset by peer)
 	CutPos  string `json:"cut_pos,omitempty"`  // abs:N | end:-K | pm:P (per mille of the stream length)
+	// CutAll (eof, rst): every connection the follower uses for this request is
+	// cut at the same position (a link that stays broken). Otherwise only the
+	// first connection used is cut and any further one works (a transient fault).
+	CutAll bool `json:"cut_all,omitempty"`
+}
+
+func (b bcase) cutName() string {
+	if b.CutAll {
+		return b.CutMode + "-all"
+	}
+	return b.CutMode
 }
 
 func (b bcase) combo() string {
-	return fmt.Sprintf("%s|v%v|c%v|t=%s|%s|%s", b.Fmt, b.Vacuum, b.Compress, b.Tables, b.Route, b.CutMode)
+	return fmt.Sprintf("%s|v%v|c%v|t=%s|%s|%s", b.Fmt, b.Vacuum, b.Compress, b.Tables, b.Route, b.cutName())
 }
 
 func (b bcase) query() string {
@@ -84,6 +96,11 @@ type bres struct {
 	L        int64   `json:"l,omitempty"` // length of the inter-node stream
 	CutFired bool    `json:"cut_fired,omitempty"`
 	Attempts int     `json:"attempts,omitempty"`
+	// eof/rst cuts: what the follower's inter-node client did during the request
+	ConnsUsed int   `json:"conns_used,omitempty"` // connections it sent the backup command on
+	ConnsCut  int   `json:"conns_cut,omitempty"`  // of those, how many failed at the cut position
+	CutPooled bool  `json:"cut_pooled,omitempty"` // the first cut hit a connection that had served an earlier request
+	RefLen    int64 `json:"ref_len,omitempty"`    // length of the complete (uncut) body for this request on the quiescent database
 	Status   int     `json:"status"`
 	ReqErr   string  `json:"req_err,omitempty"`  // no response headers
 	BodyErr  string  `json:"body_err,omitempty"` // response aborted while the body was read
@@ -109,28 +126,54 @@ type jobres struct {
 	StreamLen int64    `json:"stream_len,omitempty"`
 }
 
-// ---- peer-closes dialer: the connection delivers N bytes, then the peer is
-// seen to close it (clean EOF), as when the remote node goes away or its
-// backup fails midway (cluster/service.go returns, which closes the conn). ----
+// ---- cutting dialer: the connection that carries a request delivers N bytes
+// of the answer, then the peer is seen to close it (clean EOF, as when the
+// remote node goes away or its backup fails midway: cluster/service.go
+// returns, which closes the conn) or to reset it (ECONNRESET, the error a real
+// TCP reset produces). The cut is claimed by the connection on which the next
+// request is *written*, whether it is newly dialed or comes out of rqlite's
+// inter-node connection pool; by default only that one connection is cut and
+// every later one works (a transient fault), with all=true every connection
+// used until disarm() is cut at the same position (a link that stays broken). ----
+
+type cutArm struct {
+	n    int64
+	kind string // eof | rst
+	all  bool
+	gen  int64
+	// observed since arm()
+	conns  int // connections a request was written on
+	claims int // of those, how many the fault was applied to
+	fired  int
+	pooled bool // the first claim was made by a connection that had been used before
+}
 
 type eofDialer struct {
 	inner *tcp.Dialer
 	mu    sync.Mutex
-	next  *int64
+	armed *cutArm
+	gen   int64
 	dials int
-	fired int
 }
 
-func (d *eofDialer) arm(n int64) {
+func (d *eofDialer) arm(n int64, kind string, all bool) {
 	d.mu.Lock()
-	d.next = &n
+	d.gen++
+	d.armed = &cutArm{n: n, kind: kind, all: all, gen: d.gen}
 	d.mu.Unlock()
 }
 
-func (d *eofDialer) counts() (int, int) {
+// disarm ends the fault and returns what was observed while it was armed.
+func (d *eofDialer) disarm() cutArm {
 	d.mu.Lock()
 	defer d.mu.Unlock()
-	return d.dials, d.fired
+	var a cutArm
+	if d.armed != nil {
+		a = *d.armed
+	}
+	d.armed = nil
+	d.gen++
+	return a
 }
 
 func (d *eofDialer) Dial(addr string, timeout time.Duration) (net.Conn, error) {
@@ -140,49 +183,123 @@ func (d *eofDialer) Dial(addr string, timeout time.Duration) (net.Conn, error) {
 	}
 	d.mu.Lock()
 	d.dials++
-	ec := &eofConn{Conn: c, d: d, rem: -1}
-	if d.next != nil {
-		ec.rem = *d.next
-		d.next = nil
-	}
 	d.mu.Unlock()
-	return ec, nil
+	return &eofConn{Conn: c, d: d, rem: -1}, nil
 }
 
 type eofConn struct {
 	net.Conn
 	d    *eofDialer
-	rem  int64 // -1 unlimited
-	dead atomic.Bool
+	mu   sync.Mutex
+	rem  int64 // bytes still readable before the cut; -1 unlimited
+	gen  int64 // generation of the fault this connection claimed
+	arm  *cutArm
+	kind string
+	used int // requests written on this connection
+	dead bool
+}
+
+func (c *eofConn) readErr() error {
+	if c.kind == "rst" {
+		return &net.OpError{Op: "read", Net: "tcp", Source: c.Conn.LocalAddr(), Addr: c.Conn.RemoteAddr(),
+			Err: os.NewSyscallError("read", syscall.ECONNRESET)}
+	}
+	return io.EOF
 }
 
 func (c *eofConn) Read(p []byte) (int, error) {
-	if c.dead.Load() {
-		return 0, io.EOF
+	c.mu.Lock()
+	if c.dead {
+		c.mu.Unlock()
+		return 0, c.readErr()
 	}
 	if c.rem == 0 {
-		c.dead.Store(true)
+		c.dead = true
+		arm := c.arm
+		c.mu.Unlock()
 		c.d.mu.Lock()
-		c.d.fired++
+		if arm != nil {
+			arm.fired++
+		}
 		c.d.mu.Unlock()
-		c.Conn.Close()
-		return 0, io.EOF
+		c.Conn.Close() // the remote node must not stay blocked writing the rest
+		return 0, c.readErr()
 	}
 	if c.rem > 0 && int64(len(p)) > c.rem {
 		p = p[:c.rem]
 	}
+	c.mu.Unlock()
 	n, err := c.Conn.Read(p)
+	c.mu.Lock()
 	if c.rem > 0 {
 		c.rem -= int64(n)
 	}
+	c.mu.Unlock()
 	return n, err
 }
 
+// Write: the first write of a request decides whether this connection is the
+// one (or one of those) the armed fault applies to.
 func (c *eofConn) Write(p []byte) (int, error) {
-	if c.dead.Load() {
-		return 0, fmt.Errorf("c21: peer closed")
+	c.mu.Lock()
+	if c.dead {
+		c.mu.Unlock()
+		return 0, &net.OpError{Op: "write", Net: "tcp", Source: c.Conn.LocalAddr(), Addr: c.Conn.RemoteAddr(),
+			Err: os.NewSyscallError("write", syscall.EPIPE)}
 	}
+	c.d.mu.Lock()
+	cur := c.d.gen
+	if a := c.d.armed; a != nil && c.gen != a.gen && (a.all || a.claims == 0) {
+		if a.claims == 0 {
+			a.pooled = c.used > 0
+		}
+		a.claims++
+		a.conns++
+		c.gen, c.arm, c.kind, c.rem = a.gen, a, a.kind, a.n
+		c.used++
+	} else if c.gen != cur {
+		// a new request on a connection that survived an earlier fault (or was
+		// never cut): no budget carries over
+		if c.rem >= 0 {
+			c.rem, c.arm = -1, nil
+		}
+		c.gen = cur
+		c.used++
+		if a := c.d.armed; a != nil {
+			a.conns++
+		}
+	}
+	c.d.mu.Unlock()
+	c.mu.Unlock()
 	return c.Conn.Write(p)
+}
+
+// A connection whose peer went away still accepts deadlines.
+func (c *eofConn) isDead() bool {
+	c.mu.Lock()
+	defer c.mu.Unlock()
+	return c.dead
+}
+
+func (c *eofConn) SetDeadline(t time.Time) error {
+	if c.isDead() {
+		return nil
+	}
+	return c.Conn.SetDeadline(t)
+}
+
+func (c *eofConn) SetReadDeadline(t time.Time) error {
+	if c.isDead() {
+		return nil
+	}
+	return c.Conn.SetReadDeadline(t)
+}
+
+func (c *eofConn) SetWriteDeadline(t time.Time) error {
+	if c.isDead() {
+		return nil
+	}
+	return c.Conn.SetWriteDeadline(t)
 }
 
 // ---- the worker ----
@@ -288,7 +405,7 @@ func (e *env) setup() error {
 		return fmt.Errorf("no stable leader on n1")
 	}
 	// second HTTP front on the follower, identical wiring, harness-owned dialer
-	e.eofD = &eofDialer{inner: tcp.NewDialer(cluster.MuxClusterHeader, nil)}
+	e.eofD = &eofDialer{inner: tcp.NewDialer(cluster.MuxClusterHeader, nil), gen: 1}
 	ecl := cluster.NewClient(e.eofD, 30*time.Second)
 	epx := proxy.New(e.fo.Store, ecl)
 	esv := httpd.New("127.0.0.1:0", e.fo.Store, ecl, epx, nil)
@@ -438,7 +555,7 @@ func (e *env) fetch(url string, r *bres) []byte {
 
 func (e *env) urlFor(bc bcase) string {
 	switch {
-	case bc.CutMode == "eof":
+	case bc.CutMode == "eof" || bc.CutMode == "rst":
 		return e.eofURL + bc.query()
 	case bc.Route == "leader":
 		return e.ld.URL(bc.query())
@@ -524,18 +641,19 @@ func resolvePos(pos string, L int64) int64 {
 // streamLen measures the inter-node stream of a forwarded backup of this
 // format on the quiescent database: 8 bytes length prefix + empty response
 // message + the gzip stream the leader produces (always compressed on the wire).
-func (e *env) streamLen(bc bcase) (int64, error) {
+func (e *env) streamLen(bc bcase) (int64, int64, error) {
 	p := bc
 	p.Route, p.Compress, p.CutMode, p.CutPos = "leader", true, "", ""
 	var r bres
 	body := e.fetch(e.urlFor(p), &r)
 	if r.ReqErr != "" || r.BodyErr != "" || r.Status != 200 {
-		return 0, fmt.Errorf("measuring stream: %s %s status %d %s", r.ReqErr, r.BodyErr, r.Status, r.ErrText)
+		return 0, 0, fmt.Errorf("measuring stream: %s %s status %d %s", r.ReqErr, r.BodyErr, r.Status, r.ErrText)
 	}
-	if _, err := gunzipAll(body); err != nil {
-		return 0, fmt.Errorf("measuring stream: %v", err)
+	plain, err := gunzipAll(body)
+	if err != nil {
+		return 0, 0, fmt.Errorf("measuring stream: %v", err)
 	}
-	return 8 + int64(len(body)), nil
+	return 8 + int64(len(body)), int64(len(plain)), nil
 }
 
 func (e *env) cutEvents() int {
@@ -559,16 +677,25 @@ func (e *env) dialEvents() int {
 }
 
 // oneCut executes a forwarded backup whose inter-node connection delivers only
-// n bytes. rqlite pools inter-node connections: a request that was served on
-// a pooled (old) connection did not consume the armed cut and is repeated.
-func (e *env) oneCut(bc bcase, n, L int64, scratch string) *bres {
+// n bytes. reset: the cut applies to the next connection the follower dials
+// (faultnet); rqlite pools inter-node connections, so a request that was
+// served on a pooled (old) connection did not consume the armed cut and is
+// repeated. eof / rst: the cut applies to the connection the backup command
+// is written on, pooled or new (see eofDialer).
+func (e *env) oneCut(bc bcase, n, L, refLen int64, scratch string) *bres {
 	r := &bres{Case: bc, Job: e.sp.Job, N: n, L: L}
+	own := bc.CutMode == "eof" || bc.CutMode == "rst"
 	for attempt := 1; attempt <= 6; attempt++ {
-		*r = bres{Case: bc, Job: e.sp.Job, N: n, L: L, Attempts: attempt}
+		*r = bres{Case: bc, Job: e.sp.Job, N: n, L: L, RefLen: refLen, Attempts: attempt}
 		var dials0, fired0 int
-		if bc.CutMode == "eof" {
-			dials0, fired0 = e.eofD.counts()
-			e.eofD.arm(n)
+		if own {
+			if bc.No%2 == 1 {
+				// odd cases: the pool holds a working connection (the cut then hits a
+				// connection that has served requests before); even cases: whatever
+				// the previous case left there, or nothing (newly dialed connection)
+				e.warmPool()
+			}
+			e.eofD.arm(n, bc.CutMode, bc.CutAll)
 		} else {
 			e.cl.Net.KillChan("n2", "n1", "cluster")
 			dials0, fired0 = e.dialEvents(), e.cutEvents()
@@ -577,16 +704,22 @@ func (e *env) oneCut(bc bcase, n, L int64, scratch string) *bres {
 		r.LB = e.snapVec(e.acked)
 		body := e.fetch(e.urlFor(bc), r)
 		r.UB = e.snapVec(e.started)
-		var dials, fired int
-		if bc.CutMode == "eof" {
-			dials, fired = e.eofD.counts()
+		if own {
+			a := e.eofD.disarm()
+			if a.claims == 0 {
+				// the command could not even be written (a connection left dead in
+				// the pool by an earlier case): nothing was cut yet
+				continue
+			}
+			r.CutFired = a.fired > 0
+			r.ConnsUsed, r.ConnsCut, r.CutPooled = a.conns, a.fired, a.pooled
 		} else {
-			dials, fired = e.dialEvents(), e.cutEvents()
+			dials, fired := e.dialEvents(), e.cutEvents()
+			if dials == dials0 {
+				continue // served (or failed) on a pooled connection: the cut is still armed
+			}
+			r.CutFired = fired > fired0
 		}
-		if dials == dials0 {
-			continue // served (or failed) on a pooled connection: the cut is still armed
-		}
-		r.CutFired = fired > fired0
 		if r.ReqErr == "" && r.BodyErr == "" && r.Status == 200 {
 			ex := restore(e.m, bc, body, scratch)
 			os.RemoveAll(scratch)
@@ -594,14 +727,45 @@ func (e *env) oneCut(bc bcase, n, L int64, scratch string) *bres {
 		}
 		return r
 	}
-	r.Inconcl = "no new inter-node connection was dialed in 6 attempts"
+	if own {
+		r.Inconcl = "the backup command was not written on any inter-node connection in 6 attempts"
+	} else {
+		r.Inconcl = "no new inter-node connection was dialed in 6 attempts"
+	}
 	return r
+}
+
+// warmPool sends small forwarded reads through the follower's second HTTP
+// front until one succeeds: connections left dead in the inter-node pool are
+// discarded by rqlite on the way and a working one is pooled.
+func (e *env) warmPool() bool {
+	for i := 0; i < 4; i++ {
+		resp, err := e.hc.Get(e.eofURL + "/db/query?q=SELECT%201")
+		if err != nil {
+			continue
+		}
+		io.Copy(io.Discard, resp.Body)
+		resp.Body.Close()
+		if resp.StatusCode == 200 {
+			return true
+		}
+	}
+	return false
 }
 
 func (e *env) runCut(jr *jobres) []*bres {
 	sp := e.sp
 	var out []*bres
 	lens := map[string]int64{}
+	plainLens := map[string]int64{}
+	// refLen: length of the complete body of this request (the database does not
+	// change during a cut job): the gzip stream as it is, or its decompressed form
+	refLen := func(bc bcase, L int64) int64 {
+		if bc.Compress {
+			return L - 8
+		}
+		return plainLens[bc.Fmt+"|"+bc.Tables+fmt.Sprint(bc.Vacuum)]
+	}
 	getL := func(bc bcase) (int64, bool) {
 		k := bc.Fmt + "|" + bc.Tables + fmt.Sprint(bc.Vacuum)
 		if v, ok := lens[k]; ok {
@@ -613,10 +777,11 @@ func (e *env) runCut(jr *jobres) []*bres {
 		var L int64
 		ok := false
 		for try := 0; try < 8 && !ok; try++ {
-			L1, err1 := e.streamLen(bc)
-			L2, err2 := e.streamLen(bc)
-			if err1 == nil && err2 == nil && L1 == L2 {
+			L1, P1, err1 := e.streamLen(bc)
+			L2, P2, err2 := e.streamLen(bc)
+			if err1 == nil && err2 == nil && L1 == L2 && P1 == P2 {
 				L, ok = L1, true
+				plainLens[k] = P1
 				break
 			}
 			e.logf("stream length not stable: %d vs %d (%v %v)", L1, L2, err1, err2)
@@ -642,7 +807,7 @@ func (e *env) runCut(jr *jobres) []*bres {
 		if n < 0 {
 			n = 0
 		}
-		out = append(out, e.oneCut(bc, n, L, filepath.Join(sp.Dir, fmt.Sprintf("c%d", ci))))
+		out = append(out, e.oneCut(bc, n, L, refLen(bc, L), filepath.Join(sp.Dir, fmt.Sprintf("c%d", ci))))
 	}
 	if sp.Dense != nil {
 		bc := *sp.Dense
@@ -659,7 +824,7 @@ func (e *env) runCut(jr *jobres) []*bres {
 		for n := lo; n < hi; n += step {
 			c := bc
 			c.CutPos = fmt.Sprintf("abs:%d", n)
-			out = append(out, e.oneCut(c, n, L, filepath.Join(sp.Dir, "d")))
+			out = append(out, e.oneCut(c, n, L, refLen(c, L), filepath.Join(sp.Dir, "d")))
 		}
 	}
 	return out
